@@ -100,7 +100,7 @@ CHECKS = {
             'Exploration over schedules: with spawn = false the start/end log must be strictly serial in arrival order; every call gets exactly one reply (none for calls flagged as expecting none); bursts of up to 104 calls (longer than the queue of pending calls).',
             'Trusted: harness scheduler (one executor task per step), gates opened only at quiescence.', '6, 7/C29'),
     'C30': ('schedule-exploring PBT of re-entrant handlers and of calls arriving right after on-demand server creation; hang = quiescence',
-            'Exploration over schedules: handlers that add/remove objects and emit signals (methods, getters, setters; spawn on/off) and calls fed 0..7 steps after at() returned; every call must be answered before the system comes to rest; handlers that remove their own object, with and without the read-only variant.',
+            'Exploration over schedules: handlers that add/remove objects and emit signals (methods, getters, setters; spawn on/off) and calls fed 0..7 steps after at() returned; every call must be answered before the system comes to rest; handlers that remove their own object, with and without the read-only variant; a &mut self handler that awaits before registering; Introspect, GetManagedObjects (object manager above the object) and ObjectServer::interface() lookups from another task running concurrently with them; the first call after on-demand creation behind a burst of signals longer than a queue (65..90).',
             'Trusted: quiescence detection of the harness scheduler (all actors pending, no wake-up pending). The loss of calls right after on-demand creation was a known finding and is repaired (known-findings.txt).', '6, 7/C30'),
     'C38': ('fault enumeration: EOF / I/O error injected at every inbound byte position and at every write call of scripted sessions, plus random sessions and schedules',
             'Fault enumeration: every fault point of 6/40 fixed sessions (all byte positions x {EOF, error}, all write calls) and random further sessions; pending calls error out, streams yield exactly the completed messages then end (also a lazily polled stream whose queue is exactly full when the transport fails), later work fails promptly, no panic, no spinning on end-of-file.',
@@ -118,7 +118,7 @@ CHECKS = {
             'Exploration over histories with every reply code and genuine / forged NameAcquired / NameLost; local answers and bus calls must follow the bookkeeping model.',
             'Trusted: fake bus sends genuine signals only where a conformant bus could.', '7/C36'),
     'C37': ('invariant-based PBT over subscription histories with a recording fake bus',
-            'Exploration over histories of streams / clones / drops / proxies / signal streams; AddMatch never doubled, RemoveMatch never for unknown, registered set == live distinct signal rules, empty at the end; two operations in flight at once, AddMatch refused by the bus (nothing may stay registered, later signals not delivered).',
+            'Exploration over histories of streams / clones / drops / proxies / signal streams; AddMatch never doubled, RemoveMatch never for unknown, registered set == live distinct signal rules, empty at the end; two operations in flight at once, AddMatch refused by the bus (nothing may stay registered, later signals not delivered), the last stream of a rule dropped while an equal one is being created, and at the end of every history a matching signal per rule must reach every live stream exactly once.',
             'Trusted: fake bus recording; expected rule values are built with the MatchRule parser only to compare rules as values rather than as strings.', '7/C37'),
     'C35': ('configuration search: generated feature subsets (exhaustive / pairwise-covering / seeded random) and generated downstream crates, compiler exit status as oracle, greedy shrinking to a minimal failing subset',
             'Exploration over configurations: all subsets of the small crates, pairwise-covering and random subsets of zvariant (11 features) and zbus (runtime x 12 optional features), runtime x vsock combinations, downstream crates mixing feature selections and workspace-level builds of several packages at once (feature unification, incl. zbus_xmlgen); cargo check must succeed.',
